@@ -260,6 +260,18 @@ def etag_sensitivity(ctx):
                 items = sorted((it.href, it.serialize(), it.etag) for it in col.get_all())
                 meta = sorted(col.get_meta().items())
                 cet = col.etag
+            # what a client sees: D:getetag and CS:getctag of the collection (both must separate any two states)
+            stp, msp = srv.propfind("/u/c/", props=("D:getetag", "CS:getctag"), login="u:")
+            seen_props = msp.get("/u/c/", {}) if stp == 207 else {}
+            for pname in ("D:getetag", "CS:getctag"):
+                if isinstance(seen_props, dict) and pname in seen_props and seen_props[pname][0] == 200:
+                    val = seen_props[pname][1].text
+                    k2 = (tuple((h, e) for h, _, e in items), tuple(meta))
+                    if seen_coll.setdefault((pname, val), k2) != k2:
+                        ctx.violation("two collection states with different items/properties announce the same %s %s" % (pname, val),
+                                      dict(a=repr(k2), b=repr(seen_coll[(pname, val)])))
+                        return
+                    ctx.count("collection-%s-read" % pname.split(":")[1])
             for href, text, etag in items:
                 if seen_text.setdefault(text, etag) != etag:
                     ctx.violation("same stored text, different ETag", dict(text=text, etags=[seen_text[text], etag]))
